@@ -86,19 +86,19 @@ func genTLS(r *vrng, ctx caddy.Context) mcase {
 func dnsRules(r *vrng) (l4dns.MatchDNSRules, [][3]string) {
 	var rs l4dns.MatchDNSRules
 	var ref [][3]string
-	for k := r.pick(0, 1, 1, 2); k > 0; k-- {
+	for k := r.pick(0, 1, 1, 1, 2); k > 0; k-- {
 		ru := &l4dns.MatchDNSRule{}
 		var x [3]string
-		if r.intn(2) == 0 {
-			ru.Class = []string{"IN", "CH"}[r.intn(2)]
+		if r.intn(4) == 0 {
+			ru.Class = []string{"IN", "IN", "CH"}[r.intn(3)]
 			x[0] = ru.Class
 		}
 		if r.intn(2) == 0 {
-			ru.Type = []string{"A", "MX", "AAAA", "TXT"}[r.intn(4)]
+			ru.Type = []string{"A", "MX"}[r.intn(2)]
 			x[1] = ru.Type
 		}
 		if r.intn(2) == 0 {
-			ru.Name = []string{"example.com.", "example.org.", "a.example.com."}[r.intn(3)]
+			ru.Name = []string{"example.com.", "example.org."}[r.intn(2)]
 			x[2] = ru.Name
 		}
 		rs = append(rs, ru)
@@ -136,12 +136,12 @@ func genDNS(r *vrng, ctx caddy.Context) mcase {
 	nq := r.pick(1, 1, 1, 2, 0)
 	for i := 0; i < nq; i++ {
 		q.Question = append(q.Question, dns.Question{
-			Name:   []string{"example.com.", "example.org.", "a.example.com.", "zz.test."}[r.intn(4)],
-			Qtype:  uint16(r.pick(int(dns.TypeA), int(dns.TypeMX), int(dns.TypeAAAA), int(dns.TypeTXT), 65280)),
-			Qclass: uint16(r.pick(int(dns.ClassINET), int(dns.ClassINET), int(dns.ClassCHAOS), 77)),
+			Name:   []string{"example.com.", "example.com.", "example.org.", "example.org.", "zz.test."}[r.intn(5)],
+			Qtype:  uint16(r.pick(int(dns.TypeA), int(dns.TypeA), int(dns.TypeMX), int(dns.TypeMX), int(dns.TypeTXT), 65280)),
+			Qclass: uint16(r.pick(int(dns.ClassINET), int(dns.ClassINET), int(dns.ClassINET), int(dns.ClassINET), int(dns.ClassCHAOS), 77)),
 		})
 	}
-	switch r.intn(10) {
+	switch r.intn(16) {
 	case 0:
 		q.Response = true
 	case 1:
@@ -164,9 +164,38 @@ func genDNS(r *vrng, ctx caddy.Context) mcase {
 			msg = append(msg, 0)
 		}
 	}
-	msg = mutate(r, msg)
 	hasAllow, hasDeny := len(m.Allow) > 0, len(m.Deny) > 0
-	return mcase{name: "dns", m: m, msg: msg, model: true, udp: udp, cfgFn: func(p []byte) string {
+	// reference decision for a well-formed query: every question must be acceptable
+	exp := ""
+	if err == nil && len(msg) == len(raw)+2*b2i(!udp) && (udp || int(binary.BigEndian.Uint16(msg)) == len(raw)) {
+		exp = "yes"
+		if len(q.Question) == 0 || q.Response || q.Rcode != dns.RcodeSuccess || q.Zero {
+			exp = "no"
+		}
+		for _, qq := range q.Question {
+			cv, cf := dns.ClassToString[qq.Qclass]
+			tv, tf := dns.TypeToString[qq.Qtype]
+			if !hasAllow && !hasDeny {
+				continue
+			}
+			den, all := refRules(dref, cv, tv, qq.Name), refRules(aref, cv, tv, qq.Name)
+			ok := cf && tf
+			switch {
+			case den && all:
+				ok = ok && m.PreferAllow
+			case den:
+				ok = false
+			case all:
+			default:
+				ok = ok && !(m.DefaultDeny || (hasAllow && !hasDeny))
+			}
+			if !ok {
+				exp = "no"
+			}
+		}
+	}
+	msg = mutate(r, msg)
+	return mcase{name: "dns", m: m, msg: msg, model: true, udp: udp, expect: exp, cfgFn: func(p []byte) string {
 		cfg := fmt.Sprintf("%d %d %d %d", b2i(hasAllow), b2i(hasDeny), b2i(m.PreferAllow), b2i(m.DefaultDeny))
 		// the bytes the matcher hands to the DNS library
 		var body []byte
@@ -219,7 +248,8 @@ func genOpenVPN(r *vrng, ctx caddy.Context) mcase {
 func genHTTP(r *vrng, ctx caddy.Context) mcase {
 	m := &l4http.MatchHTTP{}
 	subs := []string{`[]`, `[]`, `[{"host":["example.com"]}]`, `[{"method":["GET"]}]`, `[{"path":["/"]}]`, `[{"host":["example.com"],"method":["GET"]}]`}
-	if err := json.Unmarshal([]byte(subs[r.intn(len(subs))]), m); err != nil {
+	sub := subs[r.intn(len(subs))]
+	if err := json.Unmarshal([]byte(sub), m); err != nil {
 		panic(err)
 	}
 	prov(ctx, m)
@@ -236,7 +266,7 @@ func genHTTP(r *vrng, ctx caddy.Context) mcase {
 		" HTTP/1.1\n",
 	}
 	msg := []byte(reqs[r.intn(len(reqs))])
-	if r.intn(4) == 0 {
+	if r.intn(3) == 0 {
 		// HTTP/2 with prior knowledge: preface, k non-HEADERS frames, then HEADERS
 		frame := func(typ, flags byte, stream uint32, payload []byte) []byte {
 			f := []byte{byte(len(payload) >> 16), byte(len(payload) >> 8), byte(len(payload)), typ, flags, 0, 0, 0, 0}
@@ -244,7 +274,7 @@ func genHTTP(r *vrng, ctx caddy.Context) mcase {
 			return append(f, payload...)
 		}
 		msg = []byte("PRI * HTTP/2.0\r\n\r\nSM\r\n\r\n")
-		for k := r.pick(0, 1, 2, 3, 8, 9, 10, 11, 14); k > 0; k-- {
+		for k := r.pick(0, 0, 1, 1, 2, 3, 8, 9, 10, 11, 14); k > 0; k-- {
 			switch r.intn(4) {
 			case 0:
 				msg = append(msg, frame(4, 0, 0, nil)...)
@@ -259,10 +289,10 @@ func genHTTP(r *vrng, ctx caddy.Context) mcase {
 		hp := append([]byte{0x82, 0x86, 0x84, 0x41, 0x0b}, []byte("example.com")...)
 		msg = append(msg, frame(1, 5, 1, hp)...)
 		if r.intn(3) != 0 {
-			return mcase{name: "http", m: m, msg: msg, model: true}
+			return mcase{name: "http", m: m, msg: msg, model: true, rawJSON: sub}
 		}
 	}
-	return mcase{name: "http", m: m, msg: mutate(r, msg), model: true}
+	return mcase{name: "http", m: m, msg: mutate(r, msg), model: true, rawJSON: sub}
 }
 
 func genClock(r *vrng, ctx caddy.Context) mcase {
@@ -283,7 +313,19 @@ func genClock(r *vrng, ctx caddy.Context) mcase {
 	now := r.pick(0, 1, 3599, 3600, 3601, 43199, 43200, 86399, r.intn(86400))
 	// the harness fixes the wrap time of the connection; the reference computes the zone-local second of the day
 	local := ((now+offs)%86400 + 86400) % 86400
-	return mcase{name: "clock", cfg: fmt.Sprintf("%d %d %d", after, before, local), m: m, msg: r.bytes(r.intn(3), 256), model: true, wrapTime: now + 1}
+	// reference: the window [after, before) on the zone-local clock, "before 00:00:00" meaning midnight, bounds swapped if reversed
+	lo, hi := after, before
+	if hi == 0 {
+		hi = 86400
+	}
+	if hi < lo {
+		lo, hi = hi, lo
+	}
+	exp := "no"
+	if lo <= local && local < hi {
+		exp = "yes"
+	}
+	return mcase{name: "clock", cfg: fmt.Sprintf("%d %d %d", after, before, local), m: m, msg: r.bytes(r.intn(3), 256), model: true, wrapTime: now + 1, expect: exp}
 }
 
 func genIP(r *vrng, ctx caddy.Context) mcase {
@@ -344,7 +386,21 @@ func genIP(r *vrng, ctx caddy.Context) mcase {
 	}
 	is6, v := tokOf(net.ParseIP(a))
 	cfg += fmt.Sprintf(" %d %s", is6, v)
-	return mcase{name: "ip", cfg: cfg, m: m, msg: r.bytes(r.intn(3), 256), model: true, addr: a, addrRemote: remote, nameOverride: name}
+	exp := "no"
+	for _, s := range ranges {
+		if !strings.Contains(s, "/") {
+			if strings.Contains(s, ":") {
+				s += "/128"
+			} else {
+				s += "/32"
+			}
+		}
+		_, ipn, _ := net.ParseCIDR(s)
+		if ipn.Contains(net.ParseIP(a)) && strings.Contains(s, ":") == strings.Contains(a, ":") {
+			exp = "yes"
+		}
+	}
+	return mcase{name: "ip", cfg: cfg, m: m, msg: r.bytes(r.intn(3), 256), model: true, addr: a, addrRemote: remote, nameOverride: name, expect: exp}
 }
 
 func init() {
